@@ -464,9 +464,11 @@ def check_encapsulation(ctx, f, g):
             if p.end == "return":
                 st = p.store.get(("P", "self"))
                 wrote = st != ("obj", "self")
-                guards = [(c[0], c[1]) for c in p.conds if c[0][0] == "bin" and c[0][2] == ("param", "n")]
-                g_ok = any(c[0][1] == want[0] and c[0][3][1] == want[1] and c[1] == 1 for c in guards) or \
-                    any(c[0][1] == {"Le": "Gt", "Gt": "Le"}[want[0]] and c[0][3][1] == want[1] and c[1] == 0 for c in guards)
+                # what the path's comparisons leave of the argument's range
+                from ..ranges import Ranger
+                nty = b.locals[2]["ty"]
+                bd = Ranger(f, {("param", "n"): nty}).bounds(("param", "n"), p.conds)
+                g_ok = bd is not None and (bd[1] == want[1] if want[0] == "Le" else bd[0] == want[1] + 1)
                 if wrote:
                     ok = g_ok
         ctx.check(ok, "setter-asserts:%s" % name.rsplit("::", 1)[-1], "%s writes the clock without asserting its range first" % name, loc(b),
